@@ -307,6 +307,16 @@ def _unit_resolution(names):
             record(u, text, kind, det, "resolution")
             if kind not in (want, "other", "timeout"):
                 u.violation(f"query:wrong-error-class:{want}-expected-got-{kind}", f"{text!r}: expected a {want} error, got {kind}", {"text": text, "part": "resolution", "want": want}, size=len(text))
+    # an unknown variable or function is an interpret error WHEREVER it stands (seeded: a fast path for flat
+    # list literals returned the tokens' stored values and never looked the variable up)
+    for inner in ("nosuch", "nosuch()", "nosuch(1)"):
+        for tmpl in ("RETURN = [{}];", "RETURN = [1, {}];", "RETURN = [{}, \"s\"];", "RETURN = [[{}]];", 'RETURN = {{"a": {}}};', 'RETURN = {{"a": [{}]}};', 'RETURN = [{{"a": {}}}];',
+                     "RETURN = id1([{}]);", 'RETURN = args2(1, {{"k": {}}});', "x = [{}]; RETURN = 1;", "x = 1; RETURN = [x, {}];", "RETURN = sum_durations([{}]);"):
+            text = tmpl.format(inner)
+            kind, det = run_text(text, ds)
+            record(u, text, kind, det, "resolution")
+            if kind not in ("Interpret", "other", "timeout"):
+                u.violation(f"query:wrong-error-class:Interpret-expected-got-{kind}", f"{text!r}: an unknown name must be an interpret error, got {kind} {det}", {"text": text, "part": "resolution", "want": "Interpret"}, size=len(text))
     for text in (
         'RETURN = query_bucket("nope");',
         'RETURN = query_bucket_eventcount("nope");',
